@@ -4,7 +4,7 @@ from .. import harness, gen, pyref, gadgets as G, coq, model
 from ..curve import *
 from ..gen import R
 
-VO = ['Props/C13.vo', 'Tie/Gadgets.vo', 'Props/C14.vo']
+VO = ['Props/C13.vo', 'Tie/Gadgets.vo']
 FILES = ['Props/C13.v', 'Tie/Gadgets.v', 'Proofs/GadgetProofs.v', 'Proofs/WrapperProofs.v', 'Proofs/WrapperNative.v', 'Model/Wrapper.v', 'Proofs/Codec.v', 'Proofs/Elligator.v']
 
 def honest_cases(ctx, scale):
